@@ -65,6 +65,14 @@ class Palette:
             return c
         return self._unknown(("s", c), "UNK")
 
+    RESERVED_KEYS = ("taxonomy", "Taxonomy", "collapsed_ids", "KEGG_Pathways", "Path")
+
+    def key(self, tok):
+        return tok if tok in self.RESERVED_KEYS else self.s(tok)
+
+    def key_inv(self, c):
+        return c if c in self.RESERVED_KEYS else self.s_inv(c)
+
     # -------------------------------------------------------------- values
     @staticmethod
     def _bits(x):
@@ -76,7 +84,8 @@ class Palette:
             return self.special[f]
         return float(f) * self.scale
 
-    def val_inv(self, x):
+    def val_inv(self, x, scale=None):
+        scale = self.scale if scale is None else scale
         try:
             x = float(x)
         except Exception:
@@ -88,7 +97,7 @@ class Palette:
         if x == 0.0:
             return [0, 1]
         if math.isfinite(x):
-            f = Fraction(x) / Fraction(self.scale)
+            f = Fraction(x) / Fraction(scale)
             if abs(f.numerator) < MAXINT and f.denominator < MAXINT:
                 return [f.numerator, f.denominator]
             if self.tolerant:
@@ -175,7 +184,7 @@ def md_row_concrete(row, pal):
         return None
     d = {}
     for key, kind, vals in row:
-        d[pal.s(key) if key not in ("taxonomy", "collapsed_ids", "Path") else key] = md_val_concrete(kind, vals, pal)
+        d[pal.key(key)] = md_val_concrete(kind, vals, pal)
     return d
 
 
@@ -241,7 +250,7 @@ def md_row_abstract(d, pal):
     out = []
     for k, v in d.items():
         kind, vals = md_val_abstract(v, pal)
-        key = pal.s_inv(k) if isinstance(k, str) else "UNKKEY"
+        key = pal.key_inv(k) if isinstance(k, str) else "UNKKEY"
         out.append([key, kind, vals])
     out.sort(key=lambda e: e[0])
     return out
@@ -255,19 +264,29 @@ def md_abstract(md, pal):
 
 # ------------------------------------------------------------------ tables
 def rep_of(t):
+    """Hidden representation of the object under test, read WITHOUT touching it: no scipy method
+    is called on the live matrix (count_nonzero(), for one, sorts indices in place)."""
     m = t.matrix_data
     fmt = m.getformat()
-    srt = bool(getattr(m, "has_sorted_indices", True)) if fmt in ("csr", "csc") else True
-    stored = int(m.nnz)
-    try:
-        true_nnz = int(m.count_nonzero())
-    except Exception:
-        true_nnz = stored
+    srt = True
+    stored = true_nnz = 0
+    if fmt in ("csr", "csc"):
+        indptr, indices, data = np.asarray(m.indptr), np.asarray(m.indices), np.asarray(m.data)
+        for k in range(len(indptr) - 1):
+            seg = indices[indptr[k]:indptr[k + 1]]
+            if len(seg) > 1 and np.any(seg[1:] <= seg[:-1]):
+                srt = False
+                break
+        stored = int(len(data))
+        true_nnz = int(np.count_nonzero(data))
+    elif fmt == "coo":
+        stored = int(len(m.data))
+        true_nnz = int(np.count_nonzero(m.data))
     return {"fmt": fmt, "sorted": srt, "stored_zeros": stored - true_nnz,
             "idw": [str(t.ids(axis="observation").dtype), str(t.ids().dtype)]}
 
 
-def project(t, pal, with_lookups=True):
+def project(t, pal, with_lookups=True, scale=None):
     """Abstract state of a biom.Table.  Works on a deep copy so that observing
     never perturbs the hidden representation of the object under test."""
     rep = rep_of(t)
@@ -278,7 +297,7 @@ def project(t, pal, with_lookups=True):
     samp = [pal.id_inv(x) for x in samp_c]
     dense = np.asarray(tt.matrix_data.toarray())
     shape = [int(dense.shape[0]), int(dense.shape[1])]
-    mat = [[pal.val_inv(x) for x in row] for row in dense]
+    mat = [[pal.val_inv(x, scale) for x in row] for row in dense]
     omd_raw = tt.metadata(axis="observation")
     smd_raw = tt.metadata(axis="sample")
     out = {"obs": obs, "samp": samp, "mat": mat,
